@@ -73,6 +73,70 @@ def run_mode(wd, mode, splice, buffer, pairs, scripts, per_pair, seed, results, 
     return alive, panic
 
 
+def run_bulk(v, pid, wd, thorough):
+    """C01 at scale: big transfers with paused readers, both directions at once, concurrent tunnels; judged by BulkObs.tla"""
+    recs = []
+    for mode, splice, buffer in IO_MODES:
+        scale = 1 if buffer > 1 else 0        # bufferSize 1 moves one byte per loop iteration: keep it small there
+        rev = bb.TcpOrigin()
+        topo = scen.Topology(wd, "bulk_" + mode, splice=splice, buffer=buffer, reverse_target="127.0.0.1:%d" % rev.port).start()
+        jobs = []
+        MB = 1 << 20
+        if scale:
+            jobs += [("http", "direct", 6 * MB, 0, 1.5), ("socks5", "direct", 0, 6 * MB, 1.5), ("socks4", "direct", 3 * MB, 3 * MB, 0.7),
+                     ("http", "uphttp", 5 * MB, 2 * MB, 1.0), ("socks5", "upsocks5", 2 * MB, 5 * MB, 1.0)]
+            if thorough:
+                jobs += [("http", "upsocks4", 16 * MB, 16 * MB, 2.0), ("socks5", "uphttp", 12 * MB, 1, 2.5)]
+            jobs += [(["http", "socks5", "socks4"][k % 3], "direct", 512 * 1024 + k, 300 * 1024 + k, 0.2) for k in range(8)]
+        else:
+            jobs += [("http", "direct", 40000, 30000, 0.3), ("socks5", "direct", 20000, 50000, 0.0)]
+        out = []
+        lock = threading.Lock()
+
+        def job(k, j):
+            org = bb.TcpOrigin()
+            try:
+                r = scen.bulk_tunnel(topo, j[0], j[1], org, "%s/bulk%d" % (mode, k), j[2], j[3], pause_reader=j[4])
+            except Exception as e:
+                r = {"tag": "%s/bulk%d" % (mode, k), "established": False, "exception": repr(e)}
+            r["mode"] = mode
+            with lock:
+                out.append(r)
+            org.close()
+        ths = [threading.Thread(target=job, args=(k, j)) for k, j in enumerate(jobs)]
+        for t in ths:
+            t.start()
+        for t in ths:
+            t.join()
+        time.sleep(1.3)
+        topo.stop()
+        rev.close()
+        trace = topo.p1.trace()
+        for r in out:
+            if not r.get("established"):
+                raise vlib.ToolError("bulk tunnel not established: %s" % r)
+            cid = scen.ctx_of_source(trace, r["sport"], "%s_%s" % (r["proto"], r["up"]))
+            evs = scen.conn_events(trace, cid) if cid is not None else []
+            drop = [e for e in evs if e["ev"] == "drop"]
+            r["terminated"] = any(e["ev"] == "state" and e["st"] == "Terminated" for e in evs)
+            r["c_bytes"] = drop[0]["c_bytes"] if drop else -1
+            r["s_bytes"] = drop[0]["s_bytes"] if drop else -1
+            if cid is None:
+                continue
+            recs.append(r)
+    bp = os.path.join(wd, "bulk.ndjson")
+    vlib.write_ndjson(bp, [{k: r[k] for k in ("tag", "sent", "recv", "intact", "eof", "terminated", "c_bytes", "s_bytes", "first_bad_offset")} for r in recs])
+    g = vlib.tlc_must_pass(vlib.run_tlc("BulkObs", "BulkObs.cfg", workers=1, timeout=300, env_extra={"BULK": bp}), "BulkObs")
+    if g.distinct < len(recs):
+        raise vlib.ToolError("BulkObs did not visit every record")
+    for c in g.cases:
+        r = c["rec"]
+        d = "c2s" if (r["recv"]["c2s"] != r["sent"]["c2s"] or not r["intact"]["c2s"] or not r["eof"]["c2s"]) else "s2c"
+        kind = "lost-or-extra-bytes" if r["recv"][d] != r["sent"][d] else "corrupted" if not r["intact"][d] else "no-eof" if not r["eof"][d] else "record"
+        v.report("relay/bulk/%s/%s" % (r["tag"].split("/")[0], kind), r, {"scenario": r["tag"]})
+    return recs
+
+
 def build_trace(results):
     lines = []
     for r in results:
@@ -146,6 +210,7 @@ def run_relay(pid, tier, t0):
             m = info_first(i1)
             v.report("relay/trace-rejected/%s/%s" % (mode, m), {"tag": r["tag"], "script": r["script"], "info": i1[:400], "obs": r["obs"]},
                      {"trace": keep, "cmd": "cd spec && TRACE=%s tlc -workers 1 -config TraceRelay.cfg TraceRelay.tla" % keep})
+    bulk = run_bulk(v, pid, wd, thorough) if pid == "C01" else []
     est = [r for r in results if r.get("scn") and not r.get("unmatched")]
     ev = vlib.evidence(pid, tier, "model_checking", {
         "states": mc.distinct + live.distinct, "transitions": mc.generated + live.generated,
@@ -158,7 +223,7 @@ def run_relay(pid, tier, t0):
                 "sample of them runs on real proxy processes for each listener x upstream pairing and each io mode (splice, buffered, "
                 "buffered with bufferSize 1), 8 tunnels concurrently; each tunnel's hook events + driver observations are one TraceRelay trace",
         "tunnels": len(results), "accepted": accepted, "not_matched_to_a_context(source port reused)": sum(1 for r in results if r.get("unmatched")), "trace_events": nev, "pairs": ["%s>%s" % p for p in pairs],
-        "io_modes": [m[0] for m in IO_MODES], "scripts_available": len(scripts), "exhaustive": False, "checker_cmd": mc.cmd,
+        "io_modes": [m[0] for m in IO_MODES], "bulk_tunnels": len(bulk), "bulk_bytes": sum(r["sent"]["c2s"] + r["sent"]["s2c"] for r in bulk), "scripts_available": len(scripts), "exhaustive": False, "checker_cmd": mc.cmd,
     }, ["loopback never drops or reorders", "one token = one byte in the trace-validated micro scenarios",
         "TLS / QUIC pairings are not part of this run (fixtures for them are used by C07/C19)"])
     return v.finish(ev, t0)
